@@ -1012,6 +1012,37 @@ pub fn check(scn: &ClientScn, log: &[Ev], horizon_reached: bool, sim: &Sim) -> V
     let _ = end_seq;
     let dispatch_end = dispatch_done.as_ref().map(|d| d.0).or(dispatch_killed);
 
+    // ---- rare-condition probes (coverage only)
+    {
+        if calls.iter().any(|c| c.abandon.is_some() && c.r_send.is_none() && c.invoke.is_some()) {
+            sim.count("probe.abandoned_before_transmission");
+        }
+        if calls.iter().any(|c| c.c_send.is_some()) {
+            sim.count("probe.cancel_on_wire");
+        }
+        if calls.iter().any(|c| matches!(c.r_send, Some((_, _, false)))) {
+            sim.count("probe.request_write_failed");
+        }
+        if nexts.iter().any(|x| !id_to_call.contains_key(&x.2)) {
+            sim.count("probe.reply_for_unknown_id");
+        }
+        if calls.iter().any(|c| c.id.map(|id| nexts.iter().any(|x| x.2 == id && (x.1 - c.deadline).abs() <= 1)).unwrap_or(false)) {
+            sim.count("probe.reply_within_1ms_of_deadline");
+        }
+        if calls.iter().any(|c| c.id.map(|id| nexts.iter().filter(|x| x.2 == id).count() >= 2).unwrap_or(false)) {
+            sim.count("probe.duplicate_reply");
+        }
+        if calls.iter().any(|c| match (&c.abandon, c.id) {
+            (Some((aseq, _)), Some(id)) => nexts.iter().any(|x| x.2 == id && x.0 < *aseq),
+            _ => false,
+        }) {
+            sim.count("probe.abandoned_after_reply_was_read");
+        }
+        if samples_at_idle.iter().any(|s| s.1 as usize >= scn.max_in_flight) {
+            sim.count("probe.idle_at_in_flight_capacity");
+        }
+    }
+
     // ---- C01 / C05: what each call resolved with
     for (i, c) in calls.iter().enumerate() {
         let Some((inv_seq, _)) = c.invoke else { continue };
